@@ -237,10 +237,8 @@ open Sge.Gen.KeeperState in
     struct reachable from them) is a handle: there is no field that could hold decoded state between two calls. -/
 theorem keeper_fields_are_handles : fields.all (fun f => (KS.handleKind f).isSome) = true := by decide +kernel
 
-open Sge.Gen.KeeperState in
-/-- The fields found in the source are exactly the inventory above, struct by struct. -/
-theorem keeper_field_inventory_is_exact : fields.map (fun f => (f.owner, f.name)) = KS.inventoryPairs := by
-  decide +kernel
+-- (An exact inventory of the fields is deliberately NOT a theorem: adding or renaming a handle is a refactoring; what
+-- matters is that every field, whatever its name, is a handle - `keeper_fields_are_handles`.)
 
 open Sge.Gen.KeeperState in
 /-- All eight custom modules are covered: each has a `Keeper` with a store key, a codec and a parameter subspace. -/
